@@ -96,7 +96,8 @@ type OpResult struct {
 	Outs                               []uint64 // tokens of the outputs (call / callredef / convert)
 	OutDyn                             []int
 	OutLen                             int
-	Loaded                             int // loadinput: values written into the Func's own input set
+	ErrText                            string // Err.Error(), rendered within the operation
+	Loaded                             int    // loadinput: values written into the Func's own input set
 	Redef                              *argmapper.Func
 	RedefIn                            []Label // declared inputs of the redefined function
 	LogFrom                            int
@@ -1206,6 +1207,11 @@ func (rt *Runtime) RunOp(i int) *OpResult {
 				}
 				res.Outs, res.OutDyn = decodeOuts(vals)
 			}
+		}
+		// a caller that gets an error looks at it (logs it): rendering is part of the
+		// operation, on the caller's thread
+		if res.Err != nil {
+			res.ErrText = res.Err.Error()
 		}
 	})
 	res.LogTo = len(rt.Log)
